@@ -620,6 +620,11 @@ func (x *c15Run) ask(uid bool, charset string, k *c15Key) ([]uint32, bool) {
 		e.Fail("protocol", "%s: %v", cmd.Text, r.Err)
 		return nil, false
 	}
+	if r.Status == "NO" && strings.Contains(charset, "ISO-2022-CN") && strings.Contains(r.Code, "BADCHARSET") {
+		// a charset the server does not support must be refused with a tagged NO (RFC 3501 6.4.4)
+		e.St.Probes["badcharset_refused"]++
+		return nil, false
+	}
 	if !r.OK() {
 		e.FailSig("search-status", strings.TrimPrefix(core.NormSig("", r.Status+" "+r.Text), ": "), "%s over a view of %d messages answered %s %s", cmd.Text, len(x.view.Rows), r.Status, r.Text)
 		return nil, false
